@@ -1001,6 +1001,40 @@ func inputMouse(tw *trace.Writer, rng *rand.Rand, names []string, n int, st map[
 				}
 			}
 		}
+		// every sequence of up to three reports over a small alphabet (press of each button, release, motion, wheel) on one
+		// decoder, in both encodings: which buttons are held is a function of the reports so far
+		if name == "xterm-256color" || name == "linux" || name == "rxvt-unicode" || n > 100 {
+			type rep struct {
+				btn int
+				fin byte
+			}
+			alpha := []rep{{0, 'M'}, {1, 'M'}, {2, 'M'}, {0, 'm'}, {1, 'm'}, {2, 'm'}, {32, 'M'}, {35, 'M'}, {34, 'M'}, {64, 'M'}, {0 + 16, 'M'}}
+			var walk func(form string, pre []rep, depth int)
+			walk = func(form string, pre []rep, depth int) {
+				if depth == 0 {
+					var vp *tcell.VerifParser
+					tw.Emit(trace.Ev{"ev": "MouseSeq"})
+					seqs++
+					for k, r := range pre {
+						if form == "x11" && r.fin == 'm' {
+							one(form, 3, 2+k, 3, 'M', false, &vp) // the legacy release does not say which button
+						} else {
+							one(form, r.btn, 2+k, 3, r.fin, false, &vp)
+						}
+					}
+					return
+				}
+				for _, a := range alpha {
+					walk(form, append(append([]rep{}, pre...), a), depth-1)
+				}
+			}
+			for _, form := range []string{"sgr", "x11"} {
+				walk(form, nil, 2)
+				if name == "xterm-256color" {
+					walk(form, nil, 3)
+				}
+			}
+		}
 		// a live screen: press, then the application touches the mouse modes (or suspends and resumes) before the
 		// release, then drag motion and the release - whether a button is held depends on the reports alone
 		for variant := 0; variant < 5; variant++ {
